@@ -331,6 +331,7 @@ def pushd_fn(
         BACKWARD = "+"
         FORWARD = "-"
 
+    nth = 0
     if dir_or_n is None:
         try:
             new_pwd: str | None = DIRSTACK.pop(0)
@@ -354,18 +355,14 @@ def pushd_fn(
             e = "Too few elements in dirstack ({0} elements)\n"
             return None, e.format(len(DIRSTACK)), 1
         elif dir_or_n.startswith(FORWARD):
-            if num == len(DIRSTACK):
-                new_pwd = None
-            else:
-                new_pwd = DIRSTACK.pop(len(DIRSTACK) - 1 - num)
+            nth = len(DIRSTACK) - num
         elif dir_or_n.startswith(BACKWARD):
-            if num == 0:
-                new_pwd = None
-            else:
-                new_pwd = DIRSTACK.pop(num - 1)
+            nth = num
         else:
             e = "Invalid argument to pushd: {0}\n"
             return None, e.format(dir_or_n), 1
+        # nth is the position in the list printed by dirs, 0 is the current directory
+        new_pwd = DIRSTACK.pop(nth - 1) if nth else None
     if new_pwd is not None:
         if ON_WINDOWS and _is_unc_path(new_pwd):
             new_pwd = _unc_map_temp_drive(new_pwd)
@@ -374,6 +371,11 @@ def pushd_fn(
             _change_working_directory(new_pwd)
         else:
             DIRSTACK.insert(0, os.path.expanduser(new_pwd))
+
+    if cd and nth:
+        # +N/-N rotate the list printed by dirs rather than extract the entry:
+        # what was above the selected directory goes to the bottom of the stack
+        DIRSTACK = DIRSTACK[nth:] + DIRSTACK[:nth]
 
     maxsize = env.get("DIRSTACK_SIZE")
     if len(DIRSTACK) > maxsize:
